@@ -496,6 +496,43 @@ format_region(struct ev_spec *spec, struct cursor *c, struct emu_ev *ev)
 	return 0;
 }
 
+/* Ensures that all the arguments declared in the signature are inside the
+ * payload of the event, so they can be safely read by ev_spec_print(). */
+int
+ev_spec_check_payload(struct ev_spec *spec, struct emu_ev *ev)
+{
+	if (spec->nargs == 0)
+		return 0;
+
+	if (!ev->has_payload || ev->payload == NULL) {
+		err("event %s has no payload", ev->mcv);
+		return -1;
+	}
+
+	const uint8_t *payload = (const uint8_t *) ev->payload;
+
+	for (int i = 0; i < spec->nargs; i++) {
+		struct ev_arg *arg = &spec->args[i];
+
+		if (arg->type == STR) {
+			/* The string must have a nil inside the payload */
+			if (arg->offset >= ev->payload_size
+					|| memchr(&payload[arg->offset], '\0',
+						ev->payload_size - arg->offset) == NULL) {
+				err("event %s has no room for string argument %s",
+						ev->mcv, arg->name);
+				return -1;
+			}
+		} else if (arg->offset + arg->size > ev->payload_size) {
+			err("event %s has no room for argument %s",
+					ev->mcv, arg->name);
+			return -1;
+		}
+	}
+
+	return 0;
+}
+
 int
 ev_spec_print(struct ev_spec *spec, struct emu_ev *ev, char *outbuf, int outlen)
 {
